@@ -485,3 +485,19 @@ package schema
 //@   nopanic
 //@   modifies s.rootNode
 //@   ensures s.rootNode == node
+
+// a type-reference value (`@A` or `@A | @B`): its text, blanks around it dropped, is
+// both the node's value and its schema type
+//@ func (*MixedValueNode).Grow(lex)
+//@   props C06 C03 C13
+//@   requires n != nil && lexWF(lex)
+//@   maypanic
+//@   modifies n.baseNode.schemaLexEvent.file, n.baseNode.schemaLexEvent.lexEventType, n.baseNode.schemaLexEvent.begin, n.baseNode.schemaLexEvent.end, n.value, n.schemaType
+//@   ensures panics <==> !(lex.lexEventType == lexeme.MixedValueBegin || lex.lexEventType == lexeme.MixedValueEnd)
+//@   ensures lex.lexEventType == lexeme.MixedValueBegin ==> result0 == box(n) && !result1 && n.value == old(n.value) && n.schemaType == old(n.schemaType) && n.schemaLexEvent == old(n.schemaLexEvent)
+//@   ensures lex.lexEventType == lexeme.MixedValueEnd ==> result0 == old(n.parent) && !result1 && n.schemaLexEvent == lex && spells(old(trimOf(lexBytes(lex))), n.value) && n.schemaType == n.value
+//@   ensures panics ==> typeis(pv, string)
+//@ func (*MixedNode).Grow(lex)
+//@   props C06
+//@   maypanic
+//@   ensures panics && typeis(pv, errors.ErrorCode) && unbox(pv, errors.ErrorCode) == errors.ErrNodeGrow
